@@ -237,6 +237,11 @@ func Closure(fsys hackpadfs.FS, candidates []string) (problems [][2]string, prob
 					add("duplicate-entry", fmt.Sprintf("%s lists %q twice", p, e.Name()))
 				}
 				n.listed[e.Name()] = e.IsDir()
+				if t := e.Type(); t.IsDir() != e.IsDir() || t&^fs.ModeType != 0 || (!e.IsDir() && t != 0) {
+					// (no symbolic links or devices are ever created: a listed entry is a directory or a regular file, and Type()
+					// carries the kind only - never permission or setuid/setgid/sticky bits)
+					add("entry-type", fmt.Sprintf("%s lists %q with Type() %v (IsDir=%v)", p, e.Name(), t, e.IsDir()))
+				}
 				n.names = append(n.names, e.Name())
 				if len(seen) < 4000 {
 					queue = append(queue, path.Join(p, e.Name()))
